@@ -456,11 +456,29 @@ func (w *Workspace) GetCommodityFormats() map[string]formatter.NumberFormat {
 		return nil
 	}
 
+	// Root file first, then the included files in path order: FileOrder reflects the
+	// history of updates, and a commodity declared in two files must not get a
+	// format that depends on it.
+	paths := make([]string, 0, len(w.resolved.Files))
+	for path := range w.resolved.Files {
+		paths = append(paths, path)
+	}
+	sort.Strings(paths)
+	journals := make([]*ast.Journal, 0, len(paths)+1)
+	if w.resolved.Primary != nil {
+		journals = append(journals, w.resolved.Primary)
+	}
+	for _, path := range paths {
+		journals = append(journals, w.resolved.Files[path])
+	}
+
 	formats := make(map[string]formatter.NumberFormat)
-	for _, dir := range w.resolved.AllDirectives() {
-		if cd, ok := dir.(ast.CommodityDirective); ok {
-			if cd.Format != "" {
-				formats[cd.Commodity.Symbol] = formatter.ParseNumberFormat(cd.Format)
+	for _, journal := range journals {
+		for _, dir := range journal.Directives {
+			if cd, ok := dir.(ast.CommodityDirective); ok {
+				if cd.Format != "" {
+					formats[cd.Commodity.Symbol] = formatter.ParseNumberFormat(cd.Format)
+				}
 			}
 		}
 	}
